@@ -290,7 +290,8 @@ func famCaseFlip(t *tgen) {
 		if s := t.pick(state...); s != "" {
 			doc = append(doc, s)
 		}
-		doc = append(doc, ":skip "+t.pick(pats...))
+		// sometimes followed by a blank or a remark: only the first word is the pattern
+		doc = append(doc, ":skip "+t.pick(pats...)+t.pick("", "", "", " ", " legacy", "  see above"))
 	}
 	if s := t.pick(state...); s != "" {
 		doc = append(doc, s)
@@ -798,10 +799,15 @@ func famSelection(t *tgen) {
 	docs := []string{"// :convergen", "//:convergen", "//  :convergen  trailing", "// // :convergen", "// see :convergen for details", "// :convergence",
 		"// :convergen.", "/* :convergen */", "// :Convergen", "// Marker: :convergen", "// :convergen-off", "// :convergen2"}
 	usedNames := map[string]bool{}
+	if t.ch(0.25) {
+		// two converter interfaces, the name of one a prefix of the other's, the longer one declared first
+		sb.WriteString("// :convergen\ntype MakerPlus interface {\n\tMP(*S) *D\n}\n\n// :convergen\ntype Maker interface {\n\tMK(*S) *D\n}\n\n")
+		t.feat("interface-name-prefix-of-another")
+	}
 	for k := 0; k < 2+t.r.Intn(3); k++ {
 		name := t.pick("Alpha", "Beta", "Mapper", "zed", "Other", "PostConvergen", "MyConvergen", "ConvergenX", "convergen") + fmt.Sprint(k)
 		if t.ch(0.15) {
-			name = t.pick("PostConvergen", "XConvergen", "NotConvergen")
+			name = t.pick("PostConvergen", "XConvergen", "NotConvergen", "ConvergenPlus", "ConvergenX", "Conv", "ConvA")
 		}
 		if usedNames[name] {
 			name += fmt.Sprint(k)
